@@ -146,6 +146,8 @@ pub struct Stats {
     differing_outputs: usize,
     event_cases: usize,
     event_records: usize,
+    obb_records: usize,
+    obb_record_mismatch: usize,
 }
 
 fn coq_bits(xs: &[u64]) -> String {
@@ -421,6 +423,18 @@ pub fn drive(header: &str, run_fn: &str) {
                         _ => {}
                     }
                 }
+                // the implementation's own rotation matrix (columns) against the one handed to the model
+                if let Some(rows) = &rot {
+                    for (_, data) in recs.iter().filter(|(k, _)| *k == "kmeans_obb") {
+                        stats.obb_records += 1;
+                        // (M * e_j loses the sign of a zero entry: (-0.0) * 1 + x * 0 = +0.0)
+                        let z = |b: u64| if b << 1 == 0 { 0 } else { b };
+                        let same = (0..d).all(|i| (0..d).all(|j| data.get(j * d + i).map(|b| z(*b)) == Some(z(rows[i][j]))));
+                        if !same {
+                            stats.obb_record_mismatch += 1;
+                        }
+                    }
+                }
                 events_coq = format!("(Some [{}])", items.join(";"));
                 stats.event_cases += 1;
                 stats.event_records += items.len();
@@ -494,7 +508,7 @@ pub fn drive(header: &str, run_fn: &str) {
         }
     }
     w.finish(&format!(
-        "\"hangs\":{},\"panics\":{},\"rot_validated\":{},\"rot_mismatch\":{},\"rot_none\":{},\"model_cases\":{},\"exact_cases\":{},\"differing_outputs\":{},\"event_cases\":{},\"event_records\":{}",
-        stats.hangs, stats.panics, stats.rot_validated, stats.rot_mismatch, stats.rot_none, stats.model_cases, stats.exact_cases, stats.differing_outputs, stats.event_cases, stats.event_records
+        "\"hangs\":{},\"panics\":{},\"rot_validated\":{},\"rot_mismatch\":{},\"rot_none\":{},\"model_cases\":{},\"exact_cases\":{},\"differing_outputs\":{},\"event_cases\":{},\"event_records\":{},\"obb_records\":{},\"obb_record_mismatch\":{}",
+        stats.hangs, stats.panics, stats.rot_validated, stats.rot_mismatch, stats.rot_none, stats.model_cases, stats.exact_cases, stats.differing_outputs, stats.event_cases, stats.event_records, stats.obb_records, stats.obb_record_mismatch
     ));
 }
